@@ -12,6 +12,17 @@ from mc.props import C12
 R = (0x00, 0x01, 0x02, 0x06, 0x09, 0x0A, 0x0C, 0x0F, 0x10, 0x12, 0x16, 0xFF, 0x28, 0x29, 0x7F, 0x80)
 ASCII = ("1", ".", "(", ")", "*", "x", "\n")
 STATES = (None,) + autox.DECODER_NAMES
+PRIME_QUICK = (1, 6)
+PRIME_THOROUGH = (1, 2, 3, 5, 8, 13, 21, 34, 64)
+
+
+def primed(state, k, makers):
+    """AutoDecoder driven into `state` by k genuine messages of that decoder (k = 1 is the plain state)."""
+    a = autox.make_decoder(state, makers)
+    if state is not None:
+        for _ in range(k - 1):
+            a.decode_message_payload(makers[state])
+    return a
 
 
 def run_one(a, payload: bytes, entry: str):
@@ -64,21 +75,25 @@ def mutations(msg: bytes, two: bool):
                         yield bytes(m)
 
 
-def _drive(p, inputs, label):
+def _drive(p, inputs, label, primes=(1,)):
     gen, ev, makers = C12.pool()
     decs = {}
-    for st in STATES:
-        try:
-            decs[st] = autox.make_decoder(st, makers)
-        except Exception:  # noqa: BLE001  (state not reachable on a broken tree: C12 reports that)
-            p.add("unreachable_states")
+    for st0 in STATES:
+        for kp in (primes if st0 is not None else (1,)):
+            try:
+                decs[(st0, kp)] = primed(st0, kp, makers)
+            except Exception:  # noqa: BLE001  (state not reachable on a broken tree: C12 reports that)
+                p.add("unreachable_states")
     for n_in, inp in enumerate(inputs):
-        for st in list(decs):
+        for key in list(decs):
+            st, kp = key
+            if kp > 1 and n_in % 3:
+                continue  # the deeper histories get every third input
             for entry in (("payload", "message") if n_in % 4 == 0 else ("payload",)):
-                a = decs[st]
+                a = decs[key]
                 k, v, c = run_one(a, inp, entry)
-                if a.previous_success_decoder != st:
-                    decs[st] = autox.make_decoder(st, makers)
+                if a.previous_success_decoder != st or kp > 1:
+                    decs[key] = primed(st, kp, makers)
                 p.add("executions")
                 if c > p.mx.get("max_calls", 0):
                     p.mx["max_calls"] = c
@@ -88,7 +103,7 @@ def _drive(p, inputs, label):
                 p.out("dict" if isinstance(v, dict) and k == "ok" else ("None" if k == "ok" else (k if k == "budget" else "raises:" + type(v).__name__)))
                 if m:
                     kind = "nontermination" if k == "budget" else "raises"
-                    p.viol(kind, f"{kind}:{st}:{entry}:{inp.hex()[:120]}", f"{label}: AutoDecoder state {st}, {entry} entry, input {inp.hex()[:60]}{'..' if len(inp) > 30 else ''} ({len(inp)} B): {m}",
+                    p.viol(kind, f"{kind}:{st}x{kp}:{entry}:{inp.hex()[:120]}", f"{label}: AutoDecoder state {st} (after {kp} genuine message(s)), {entry} entry, input {inp.hex()[:60]}{'..' if len(inp) > 30 else ''} ({len(inp)} B): {m}",
                            {"state": st, "input": inp.hex(), "entry": entry}, size=len(inp))
         if p.full("raises") or p.full("nontermination"):
             p.capped = True
@@ -96,13 +111,13 @@ def _drive(p, inputs, label):
 
 
 def _work_msg(task) -> core.Part:
-    key, sl, nsl, two = task
+    key, sl, nsl, two, primes = task
     p = core.Part()
     gen, ev, makers = C12.pool()
     msg = gen[key][0]
     inputs = list(dict.fromkeys(mutations(msg, two)))[sl::nsl]
     p.add("nontrivial", len(inputs))
-    _drive(p, inputs, f"mutation of {key}")
+    _drive(p, inputs, f"mutation of {key}", primes)
     return p
 
 
@@ -148,10 +163,10 @@ def main(run: core.Run) -> int:
     tasks = []
     for k in pick:
         nsl = max(1, len(gen[k][0]) // 24)
-        tasks += [(k, i, nsl, False) for i in range(nsl)]
+        tasks += [(k, i, nsl, False, PRIME_QUICK if q else PRIME_THOROUGH) for i in range(nsl)]
     if not q:
         for k in [x for x in keys if x.startswith("fix.")][::4]:
-            tasks += [(k, i, 32, True) for i in range(32)]
+            tasks += [(k, i, 32, True, (1,)) for i in range(32)]
     run.log(f"{len(pick)} messages, {len(tasks)} partitions")
     run.merge(par.pmap(_work_msg, tasks, seed=run.seed))
     NA, ND = (4, 6) if q else (5, 7)
@@ -160,7 +175,7 @@ def main(run: core.Run) -> int:
     tot = run.total
     tot.sample({"message": "ref.kaifa.list1_1320W.body", "input": "02010600000528", "states": 8, "entries": 2, "budget_calls": budget.budget_for(7)})
     tot.sample({"ascii": "1.0(1)x", "expected": "dict or None within 42 800 calls"})
-    run.bounds = {"messages": len(pick), "ascii_via_autodecoder": f"<= {NA}", "ascii_via_parse_p1_readout_content": f"<= {ND}", "max_calls_observed": tot.mx.get("max_calls", 0)}
+    run.bounds = {"messages": len(pick), "histories": "each remembered decoder reached by k genuine messages, k in " + str(list(PRIME_QUICK if q else PRIME_THOROUGH)), "ascii_via_autodecoder": f"<= {NA}", "ascii_via_parse_p1_readout_content": f"<= {ND}", "max_calls_observed": tot.mx.get("max_calls", 0)}
     run.assumptions = ["time/memory bound is decided through the deterministic call-count budget (every allocation in these code paths happens inside a counted call) with an address-space limit as backstop",
                        "bytes outside the substitution alphabet are reached only through b+-1 / b^1"]
     ex = tot.c.get("executions", 0)
